@@ -18,13 +18,14 @@ import Clem.Props.C13.Rag
 import Clem.Props.C13.Speak
 import Clem.Props.C13.Sanitize
 import Clem.Props.C13.TurnLine
+import Clem.Props.C13.Assemble
 
 namespace Clem.Props.C13
 open Clem.T3 Clem.Gen.T3Consts
 
 /-- literal defaults the model and the driver use are the ones in the source (regenerated table) -/
 theorem C13_planner_defaults :
-    defaultOps = 3 ∧ defaultTokens = 256 ∧ defaultKRetrieval = 64 ∧ Clem.Gen.T3Consts.speakDefaultTokens = [Clem.T3.speakDefaultTokens] ∧
+    defaultOps = 3 ∧ bundleDefaultMaxOps = 3 ∧ forwardedSliceKeys = [[116, 51, 95, 111, 112, 115]] ∧ defaultTokens = 256 ∧ defaultKRetrieval = 64 ∧ Clem.Gen.T3Consts.speakDefaultTokens = [Clem.T3.speakDefaultTokens] ∧
     defaultTauHighBits = 4605380978949069210 ∧ defaultTauLowBits = 4600877379321698714 ∧
     defaultEpsEditBits = 4591870180066957722 := by decide
 
